@@ -87,7 +87,7 @@ def udt(draw, earlier, used_names, used_tids, depth_of):
     for i in range(n):
         kinds = ["atomic", "atomic", "array", "bools", "hidden"]
         if nest_ok:
-            kinds += ["nested", "nested"]
+            kinds += ["nested", "nested", "nested"]
         strs = [u for u in earlier if u.get("string") is not None]
         if strs:
             kinds.append("string")
@@ -127,7 +127,8 @@ def udt(draw, earlier, used_names, used_tids, depth_of):
                 members.append({"name": draw(ident(mnames, maxlen=8)), "kind": "bit", "type": "BOOL", "array": 0, "offset": off, "bit": b, "hidden": False})
             off += 1
         else:
-            u = draw(st.sampled_from(strs if kind == "string" else nest_ok))
+            structs = [x for x in nest_ok if x.get("string") is None]
+            u = draw(st.sampled_from(strs if kind == "string" else (structs or nest_ok)))
             depth = max(depth, depth_of[u["name"]] + 1)
             off = pad_to(off, 8 if draw(st.booleans()) else 4) + gap
             arr = draw(st.sampled_from([0, 0, 0, 1, 2, 3]))
@@ -201,7 +202,7 @@ def projects(draw, size_bias=None, max_tags=10):
     for i in range(ntags):
         scope = draw(st.sampled_from(scopes + [None, None]))
         name = draw(ident(tag_names[scope], maxlen=12))
-        tkind = draw(st.sampled_from(["atomic", "atomic", "udt", "string", "boolarray"]))
+        tkind = draw(st.sampled_from(["atomic", "atomic", "udt", "udt", "string", "boolarray"]))
         pool = draw(st.sampled_from(pools))
         if tkind == "boolarray":
             typ = "DWORD"
